@@ -398,6 +398,21 @@ class Gen:
         # refill of the 32 pre-computed nonces at the 33rd signature
         self.sstream(d, idz, 16, [[r.bytes(8)] for _ in range(34)], nonces(64), "sstream:34-rounds:refill")
         self.sstream(d, idz, 16, [[r.bytes(8)] for _ in range(33)], nonces(32), "sstream:33-rounds:refill-without-entropy")
+        # sm2_fast_sign_pre_compute: all 32 slots (k, x1 mod n) against the model's batch inversion
+        for name, special in (("boundary-nonces", {0: 1, 1: N - 1, 2: N - 70, 15: big(1)[0], 30: N - 71, 31: big(1)[0]}),
+                              ("boundary-at-ends", {0: N - 70, 31: N - 1, 16: big(1)[0]}),
+                              ("small", {})):
+            ks = nonces(32)
+            for i, k in special.items(): ks[i] = k
+            en = ent_hex(ks)
+            self.add(line="signpre %s" % en, expr="c01_signpre %s" % q(en), cell="signpre:%s" % name)
+        ks = nonces(32); ks[10:10] = [N, 0]
+        self.add(line="signpre %s" % ent_hex(ks), expr="c01_signpre %s" % q(ent_hex(ks)), cell="signpre:rejected-draws")
+        en = ent_hex(nonces(31))
+        self.add(line="signpre %s" % en, expr="c01_signpre %s" % q(en), cell="signpre:entropy:31-nonces")
+        # one context used for all 32 slots with boundary nonces in slots 0 and 31
+        ks = nonces(32); ks[0] = N - 70; ks[31] = N - 1; ks[1] = 1
+        self.sstream(d, idz, 16, [[r.bytes(6)] for _ in range(32)], ks, "sstream:32-rounds:every-slot")
         # one-shot signing with Z
         for cls, idbuf, idlen in (("default-id", idz, 16), ("custom-id", b"bob@example", 11)):
             m = r.bytes(r.range(0, 200)); en = ent_hex(big(1))
@@ -455,11 +470,9 @@ def phase2(g, first, impl):
             sigs = w[0].split(",")
             P = g.pub[c["d"]]
             for i, (sg, chunks) in enumerate(zip(sigs, c["rounds"])):
-                if i >= 3 and i < len(sigs) - 2:
-                    continue
                 msg = b"".join(chunks)
                 sgb = bytes.fromhex(sg)
-                with_model = i < 2 or i >= len(sigs) - 1
+                with_model = i < 2 or i >= len(sigs) - 1 or (len(sigs) == 32 and i in (30, 31))
                 g.vstream(P, c["idbuf"], c["idlen"], r.split(msg, 3), sgb, "vstream:of-%s" % base, expect="OK", model=with_model)
                 if i == 0 and c["idbuf"] is not None and 1 <= c["idlen"] <= 8191:
                     g.vstream1(P, c["idbuf"], c["idlen"], msg, sgb, "vstream1:of-%s" % base, expect="OK")
